@@ -96,7 +96,8 @@ Definition ref_lne (r : rstate) (now : Z) (id : str) : rstate :=
   match rfind id (r_sessions r) with
   | None => r
   | Some x => if is_expired (fst x) now
-              then {| r_sessions := rdel id (r_sessions r); r_routes := r_routes r |} else r
+              then {| r_sessions := rdel id (r_sessions r);
+                      r_routes := filter (fun kv => negb (bytes_eqb (snd kv) id)) (r_routes r) |} else r
   end.
 Definition ref_renew (r : rstate) (now : Z) (x : rsess) : rstate :=
   {| r_sessions := (renew_lease (fst x) now, snd x) :: rdel (e_id (fst x)) (r_sessions r);
